@@ -17,7 +17,7 @@ from ..oblig import PROVED, REFUTED, UNKNOWN, UNSUPPORTED, Obligation
 from ..values import CallA, Dyn, IteA, IteV, JoinA, K, Lit, OpA, QuoteA, S, Sym
 from .base import canon, parallel
 from .positions import shape_of
-from .render import render_targets
+from .render import flat_calls, recv_key, render_targets
 
 PROP = "C07"
 
@@ -112,6 +112,24 @@ def check_one(item):
                               detail=f"{key} reaches the SQL text only through format_quotes with the context's quote",
                               reason=why, witness={"family": "call", "oracle": "identifier_site",
                                                    "args": [fi.short, ci.short, key]}))
+    # a package object formatted through str() renders its names with the quote character of its own default
+    # context instead of the context's
+    named = ex.tags.sub(r.cls("terms.Term"))
+    byp = {}
+    for o in run.outcomes:
+        if o.status == "raise":
+            continue
+        ex.st = o.state
+        for ef, g, _l in flat_calls(o.state.effects):
+            if ef.method == "__str__" and (ef.recv_tags is None or ef.recv_tags & named) and \
+                    ex.smt.feasible(o.state.pc + ([g] if g is not None else [])):
+                byp[recv_key(ex, ef, o.state)] = True
+    for rk in sorted(byp):
+        obs.append(Obligation(PROP, f"{name}|quote/str-bypass|{rk}", "quote/str-bypass", fi.short, REFUTED,
+                              detail=f"{rk} is formatted with str(): its names are quoted with the default context's "
+                                     "quote character, not the context's",
+                              reason="str() of a package object inside a render function",
+                              witness={"family": "call", "oracle": "identifier_site", "args": [fi.short, ci.short, rk]}))
     for n in sorted({canon(n) for n in ex.notes_global if n.startswith("dyn-template:")}):
         obs.append(Obligation(PROP, f"{name}|quote/template|{n.split(':')[1]}", "quote/template", fi.short, REFUTED,
                               detail="a datum is part of a str.format template: braces in it are parsed as "
@@ -165,16 +183,73 @@ def check_static(_item):
     return obs
 
 
+def check_store(cq):
+    """name/store: every name-typed slot a constructor fills holds the argument it was given, unmodified (a name is one
+    identifier: it is not split, trimmed, re-cased or concatenated when it is stored)"""
+    from contracts.invariants import SLOTS
+    from ..values import IteV
+    r = repo()
+    ci = r.classes[cq]
+    fi = ci.resolve("__init__")[1]
+    run = run_function(fi, ci, self_fresh=True)
+    name = f"{fi.short}@{ci.short}"
+    if run.error:
+        return [Obligation(PROP, f"{name}|name/store", "name/store", fi.short, UNSUPPORTED, reason=run.error)]
+    ex = run.ex
+    bad, seen = {}, set()
+
+    def plain(v):
+        if isinstance(v, IteV):
+            return plain(v.a) and plain(v.b)
+        if isinstance(v, S):
+            return all(isinstance(a, Lit) for a in v.atoms)      # a constant
+        if isinstance(v, Sym):
+            return "(" not in v.path      # an argument (or an element/attribute of one), not the result of an operation
+        return isinstance(v, K)
+    for o in run.outcomes:
+        if o.status == "raise":
+            continue
+        for oid, h in o.state.heap.items():
+            if not h.fresh or h.cls is None:
+                continue
+            for k in h.cls.mro:
+                for attr, spec in SLOTS.get(k.short, {}).items():
+                    if not (spec.split("|")[0] == "name") or attr not in h.attrs:
+                        continue
+                    seen.add(f"{h.cls.short}.{attr}")
+                    v = h.attrs[attr]
+                    if not plain(v):
+                        bad[f"{h.cls.short}.{attr}"] = f"stores {v!r}"[:200]
+    obs = []
+    for key in sorted(seen):
+        obs.append(Obligation(PROP, f"{name}|name/store|{key}", "name/store", fi.short,
+                              REFUTED if key in bad else PROVED,
+                              detail=f"{key} holds a name argument as given (or a constant)", reason=bad.get(key, ""),
+                              witness={"family": "call", "oracle": "name_store", "args": [ci.short]}))
+    return obs
+
+
 def _dispatch(item):
     if item[0] == "$static":
         return check_static(item)
+    if item[0] == "$store":
+        return check_store(item[1])
     return check_one(item)
 
 
 def generate(tier="quick"):
     r = repo()
     t = render_targets(r)
-    obs = parallel(_dispatch, [("$static", None, [])] + t)
+    from contracts.invariants import SLOTS
+    stores = []
+    for ci in sorted(r.classes.values(), key=lambda c: c.qual):
+        res = ci.resolve("__init__")
+        if not res or res[0] != "func":
+            continue
+        if any(spec.split("|")[0] == "name" for k in ci.mro for spec in SLOTS.get(k.short, {}).values()) or \
+                ci.short in ("queries.Table", "queries.Schema", "queries.Database"):
+            stores.append(("$store", ci.qual, []))
+    obs = parallel(_dispatch, [("$static", None, [])] + stores + t)
     return obs, {"functions": sorted({x[0] for x in t}) + ["pypika_tortoise.utils.format_quotes"],
                  "closed_world": sorted({c for x in t for c in x[2]}),
                  "assumptions": ["which data are names is declared in contracts/invariants.py (label `name`): table, "
